@@ -24,7 +24,7 @@ def fbits(fs):
 
 
 # ---------------------------------------------------------------------------------------------
-def _history(rnd2, dec, stats, mk_iface, mmap, top, **kw):
+def _history(rnd2, dec, stats, mk_iface, mmap, top, ghosts=None, mk_map=None, **kw):
     """legal but unusual histories before the next `add`: the decoder has already been elaborated
     (elaboration must leave it as it was), or an `add` of ANOTHER interface object carrying the same
     memory map has just been refused for its address (a refused call must leave nothing behind)"""
@@ -39,6 +39,16 @@ def _history(rnd2, dec, stats, mk_iface, mmap, top, **kw):
             dec.add(old, name="refused", addr=top, **kw)       # outside the address space: refused by the memory map
         except ValueError:
             stats["refused_then_other_interface"] += 1
+    if ghosts is not None and rnd2.random() < .10:
+        # an interface with a memory map of its own whose add() is refused is no subordinate of this
+        # decoder: whatever it drives later must not show anywhere
+        g = mk_iface()
+        g.memory_map = mk_map()
+        try:
+            dec.add(g, name=f"ghost{len(ghosts)}", addr=top, **kw)
+        except ValueError:
+            ghosts.append(g)
+            stats["refused_interfaces_kept_driving"] = stats.get("refused_interfaces_kept_driving", 0) + 1
 
 
 def run_csr(case):
@@ -48,14 +58,15 @@ def run_csr(case):
     dw = rnd.choice([8, 16, 32])
     al = rnd.choice([0, 0, 1, 2, 3])
     dec = csr.Decoder(addr_width=aw, data_width=dw, alignment=al)
-    subs = []
+    subs, ghosts = [], []
     stats = {"subs": 0, "explicit": 0, "padded": 0, "unassigned_vectors": 0, "vectors": 0, "refused_adds": 0,
              "elaborated_before_add": 0, "refused_then_other_interface": 0}
     for i in range(rnd.randint(0, 5)):
         saw = rnd.randint(1, aw)
         sb = csr.Interface(addr_width=saw, data_width=dw, path=(f"sub{i}",))
         sb.memory_map = MemoryMap(addr_width=saw, data_width=dw)
-        _history(rnd2, dec, stats, lambda: csr.Interface(addr_width=saw, data_width=dw, path=(f"old{i}",)), sb.memory_map, 1 << aw)
+        _history(rnd2, dec, stats, lambda: csr.Interface(addr_width=saw, data_width=dw, path=(f"old{i}",)), sb.memory_map, 1 << aw,
+                 ghosts=ghosts, mk_map=lambda: MemoryMap(addr_width=saw, data_width=dw))
         try:
             how = rnd.random()
             if how < .5:
@@ -95,6 +106,8 @@ def run_csr(case):
             ctx.set(dec.bus.addr, addr); ctx.set(dec.bus.r_stb, rstb); ctx.set(dec.bus.w_stb, wstb); ctx.set(dec.bus.w_data, wdata)
             for k, sb in enumerate(subs):
                 ctx.set(sb.r_data, rs[k])
+            for g in ghosts:
+                ctx.set(g.r_data, rnd2.getrandbits(dw) | 1)
             lines.append(f"cyc {addr} {rstb} {wstb} {wdata} " + " ".join(map(str, rs)))
             outs = []
             hit = None
@@ -135,8 +148,13 @@ def run_wb(case):
     aw = rnd.randint(1, 8) if rnd.random() < .95 else 0
     feats = set(f for f in F if rnd.random() < .5)
     al = rnd.choice([0, 0, 1, 2, 3])
-    dec = wishbone.Decoder(addr_width=aw, data_width=dw, granularity=gran, features=feats, alignment=al)
-    subs = []
+    def spelled(fs):
+        """the same feature set, spelled with strings or Feature members, as a set, list or tuple"""
+        how = rnd2.choice(["str", "str", "enum", "list", "mixed"])
+        return {"str": set(fs), "enum": {wishbone.Feature(f) for f in fs}, "list": sorted(fs),
+                "mixed": tuple(wishbone.Feature(f) if k % 2 else f for k, f in enumerate(sorted(fs)))}[how]
+    dec = wishbone.Decoder(addr_width=aw, data_width=dw, granularity=gran, features=spelled(feats), alignment=al)
+    subs, ghosts = [], []
     stats = {"subs": 0, "sparse": 0, "explicit": 0, "vectors": 0, "nobody_selected": 0, "responses": 0, "feature_mismatch": 0,
              "elaborated_before_add": 0, "refused_then_other_interface": 0}
     maw_dec = max(1, aw + gb)
@@ -149,13 +167,13 @@ def run_wb(case):
             sdw, sg = dw, gran
             saw = rnd.randint(0, aw)
         sf = set(f for f in F if rnd.random() < .5) - ({"err", "rty", "stall"} - feats)
-        sb = wishbone.Interface(addr_width=saw, data_width=sdw, granularity=sg, features=sf, path=(f"sub{i}",))
+        sb = wishbone.Interface(addr_width=saw, data_width=sdw, granularity=sg, features=spelled(sf), path=(f"sub{i}",))
         maw = max(1, saw + int(math.log2(sdw // sg)))
         if maw > maw_dec:
             continue
         sb.memory_map = MemoryMap(addr_width=maw, data_width=sg)
         _history(rnd2, dec, stats, lambda: wishbone.Interface(addr_width=saw, data_width=sdw, granularity=sg, features=sf, path=(f"old{i}",)),
-                 sb.memory_map, 1 << maw_dec, sparse=sparse)
+                 sb.memory_map, 1 << maw_dec, ghosts=ghosts, mk_map=lambda: MemoryMap(addr_width=maw, data_width=sg), sparse=sparse)
         try:
             if rnd.random() < .6:
                 dec.add(sb, sparse=sparse, name=None if rnd.random() < .5 else f"s{i}")
@@ -223,6 +241,11 @@ def run_wb(case):
                 if "stall" in sf: ctx.set(sb.stall, r[3])
                 resp.append(r)
                 stats["responses"] += r[0]
+            for g in ghosts:
+                ctx.set(g.ack, 1); ctx.set(g.dat_r, rnd2.getrandbits(g.data_width) | 1)
+                for nm in ("err", "rty", "stall"):
+                    if hasattr(g, nm):
+                        ctx.set(getattr(g, nm), 1)
             lines.append(f"cyc {cyc} {stb} {we} {lock} {adr} {datw} {sel} {cti} {bte} " + " ".join(" ".join(map(str, r)) for r in resp))
             up = (ctx.get(bus.ack), ctx.get(bus.err) if "err" in feats else None, ctx.get(bus.rty) if "rty" in feats else None,
                   ctx.get(bus.stall) if "stall" in feats else None, ctx.get(bus.dat_r))
